@@ -11,6 +11,9 @@ mod rng;
 mod runner;
 
 mod c06_layout;
+mod c08_init;
+mod c08_mmio;
+mod c09_drop;
 
 use proto::RunResult;
 use runner::{Ctx, Tier};
@@ -29,6 +32,7 @@ fn main() {
     runner::install_panic_hook();
     match args[1].as_str() {
         "consts" => print!("{}", c06_layout::consts_lean()),
+        "features" => print!("{}", c08_init::features_lean()),
         "run" => {
             if args.len() < 3 {
                 usage();
@@ -83,6 +87,8 @@ fn main() {
             // ---- property dispatch: one line per property module ----
             let (cases, rule, exhaustive, extra) = match prop.as_str() {
                 "C06" => c06_layout::run(&ctx),
+                "C08" => c08_init::run(&ctx),
+                "C09" => c09_drop::run(&ctx),
                 _ => {
                     eprintln!("unknown property {}", prop);
                     std::process::exit(2)
